@@ -4,3 +4,4 @@ pub mod strings;
 pub mod text;
 pub mod lz;
 pub mod containers;
+pub mod loc;
